@@ -770,7 +770,9 @@ def __generate_transformation(
     child: Union[Assignment, PersistentAssignment], is_persistent: bool, count: int
 ) -> Transformation:
     expression = ASTString().render(ast=child.right)
-    result = child.left.value  # type: ignore[attr-defined]
+    # rendered like any other name: a result called 'sum' or 'my result' keeps the quotes the
+    # script needs, so that the transformation's full expression parses again
+    result = ASTString().render(ast=child.left)
     return Transformation(
         id=f"T{count}",
         expression=expression,
